@@ -477,7 +477,8 @@ def _create_thetas(model, parameter, effect, covariate, template, _ctre=re.compi
 
         theta_name = f'POP_{parameter}{covariate}'
         pset = Parameters.create(
-            list(pset) + [Parameter(theta_name, inits['init'], inits['lower'], inits['upper'])]
+            list(pset)
+            + [Parameter.create(theta_name, inits['init'], inits['lower'], inits['upper'])]
         )
         theta_names['theta'] = theta_name
     else:
@@ -486,7 +487,8 @@ def _create_thetas(model, parameter, effect, covariate, template, _ctre=re.compi
 
             theta_name = f'POP_{parameter}{covariate}_{i}'
             pset = Parameters.create(
-                list(pset) + [Parameter(theta_name, inits['init'], inits['lower'], inits['upper'])]
+                list(pset)
+                + [Parameter.create(theta_name, inits['init'], inits['lower'], inits['upper'])]
             )
             theta_names[new_theta] = theta_name
 
@@ -556,10 +558,13 @@ def _choose_param_inits(effect, model, covariate, index=None):
                 init = upper / 5
         else:
             init = init_default
-    elif effect == 'pow':
-        init = init_default
     elif effect == "cat2":
         init = 1.01
+    elif init_default > upper:
+        # NOTE: The bounds depend on the data: keep the initial estimate inside them
+        init = upper / 2 if upper > 0 else (upper + lower) / 2
+    elif init_default < lower:
+        init = (upper + lower) / 2
     else:
         init = init_default
 
